@@ -112,6 +112,51 @@ theorem evalCall_countOf (s : Shared α ρ) (m : MethodInfo) (a : α) (id pi : N
               congr 1
               by_cases h1 : id = m.id <;> by_cases h2 : pi = pi0 <;> simp [h1, h2, eq_comm]
 
+/-- the outcome of a call that is matched by pattern `pi`: that pattern's response chain, asked at the pattern's
+    current counter -/
+theorem evalCall_outcome_of_selected (s : Shared α ρ) (m : MethodInfo) (a : α) (pi : Nat)
+    (h : selected s m a = some pi) :
+    ∃ p, s.pat? m.id pi = some p ∧ (evalCall s m a).2 = (respond m pi p.responders (s.countOf m.id pi)).2 := by
+  cases hf : s.find m.id with
+  | none => unfold selected at h; simp [hf] at h
+  | some fm =>
+    obtain ⟨info, mode, pats⟩ := fm
+    cases mode with
+    | anyOrder =>
+      rcases hscan : scan pats a 0 with _ | ⟨pi0, t⟩
+      · unfold selected at h; simp [hf, hscan] at h
+      · cases t with
+        | noMatcher => unfold selected at h; simp [hf, hscan] at h
+        | userPanic => unfold selected at h; simp [hf, hscan] at h
+        | accept =>
+          have hpi : pi0 = pi := by unfold selected at h; simpa [hf, hscan] using h
+          subst hpi
+          have hlt := scan_lt pats a pi0 .accept hscan
+          have hp : pats[pi0]? = some pats[pi0] := List.getElem?_eq_getElem hlt
+          have hpat : s.pat? m.id pi0 = some pats[pi0] := by unfold Shared.pat?; rw [hf]; simpa using hp
+          refine ⟨pats[pi0], hpat, ?_⟩
+          have hc : s.countOf m.id pi0 = pats[pi0].count := by unfold Shared.countOf; rw [hpat]
+          unfold evalCall
+          simp only [hf, hscan, hp, hc]
+    | inOrder =>
+      rcases hfo : findForOrder pats s.nextOrdered with _ | pi0
+      · unfold selected at h; simp [hf, hfo] at h
+      · rcases hp : pats[pi0]? with _ | p
+        · unfold selected at h; simp [hf, hfo, hp] at h
+        · rcases htry : tryPat p a with _ | t
+          · unfold selected at h; simp [hf, hfo, hp, htry] at h
+          · cases t with
+            | noMatcher => unfold selected at h; simp [hf, hfo, hp, htry] at h
+            | userPanic => unfold selected at h; simp [hf, hfo, hp, htry] at h
+            | accept =>
+              have hpi : pi0 = pi := by unfold selected at h; simpa [hf, hfo, hp, htry] using h
+              subst hpi
+              have hpat : s.pat? m.id pi0 = some p := by unfold Shared.pat?; rw [hf]; simpa using hp
+              refine ⟨p, hpat, ?_⟩
+              have hc : s.countOf m.id pi0 = p.count := by unfold Shared.countOf; rw [hpat]
+              unfold evalCall
+              simp only [hf, hfo, hp, htry, hc]
+
 theorem call_countOf (s : Shared α ρ) (m : MethodInfo) (a : α) (id pi : Nat) :
     (call s m a).1.countOf id pi =
       s.countOf id pi + (if id = m.id ∧ selected s m a = some pi then 1 else 0) := by
